@@ -83,57 +83,80 @@ def rule_r1(F):
 
 
 def rule_r2(F):
+    """Decided on the MIR data flow of resolve_module_part_of_path (the shape and the names of the loop do not matter): the three
+    values handed to resolve_name are variables; `scope` starts at the function's scope parameter and is re-assigned from the
+    scope of the declaration resolve_name just found; the 'search enclosing scopes' flag starts true and is false from the second
+    segment on; the identifier comes from the path iterator."""
     r = RuleResult("C13.R2", "path walking: first segment looked up recursively, later segments only among the members of the item before them", floor=2)
     ps = [p for p in F.paths() if p.endswith("::resolve_module_part_of_path")]
     if not ps:
         r.missing("resolve_module_part_of_path")
         return r
     b = F.body(ps[0])
-    h = b.hir["value"]
-    ld = hir.LocalDefs(b.hir)
-    pidx = hir.param_index(b.hir)
-    loops = list(hir.nodes(h, "loop"))
-    found_false = found_scope = call_ok = ok_init = False
-    for lp in loops:
-        calls = [c for c in hir.nodes(lp, "mcall") if c["m"] == "resolve_name" and len(c["args"]) == 3]
-        if not calls:
-            continue
-        c = calls[0]
-        # the three arguments, identified by what they are - not by what they are called
-        l_scope = hir.res_local(hir.peel_refs(hir.strip(c["args"][0])))
-        l_ident = hir.res_local(hir.peel_refs(hir.strip(c["args"][1])))
-        l_rec = hir.res_local(hir.peel_refs(hir.strip(c["args"][2])))
-        d_ident = ld.get(l_ident) if l_ident is not None else None
-        ident_from_iter = bool(d_ident and d_ident[1] is not None and any(x["m"] == "next" for x in hir.nodes(d_ident[1], "mcall")))
-        d_rec = ld.get(l_rec) if l_rec is not None else None
-        ok_init = bool(d_rec and d_rec[1] is not None and hir.strip(d_rec[1]).get("v") is True and not (d_rec[2] and d_rec[2][0] == "arm"))
-        call_ok = pidx.get(l_scope) == 1 and ident_from_iter and l_rec is not None and l_rec not in pidx
-        for a in hir.nodes(lp, "assign"):
-            ll = hir.res_local(hir.peel_refs(hir.strip(a["lhs"])))
-            if ll is not None and ll == l_rec and hir.strip(a["rhs"]).get("v") is False:
-                found_false = True
-            if ll is not None and ll == l_scope:
-                # rhs local must be bound by `Some(s) = stub.scope`
-                l = hir.res_local(hir.peel_refs(a["rhs"]))
-                d = ld.get(l) if l is not None else None
-                if d and d[1] is not None:
-                    init_e = hir.peel_refs(d[1])
-                    if init_e.get("k") == "field" and init_e["n"] == "scope":
-                        base = hir.peel_refs(init_e["e"])
-                        bl = hir.res_local(base)
-                        bd = ld.get(bl) if bl is not None else None
-                        if bd and bd[1] is not None and any(x["m"] == "resolve_name" for x in hir.nodes(bd[1], "mcall")):
-                            found_scope = True
-    r.inst("recurse starts true", {"ok": ok_init})
-    if not ok_init:
-        r.bad(b.path, "recurse init", relfile(b.file), b.line, "the first path segment must be looked up through the enclosing scopes (recurse = true)")
-    r.inst("loop", {"resolve_name(scope, ident, recurse)": call_ok, "recurse=false before back edge": found_false, "scope fed back from found declaration": found_scope})
-    if not call_ok:
-        r.bad(b.path, "call", relfile(b.file), b.line, "the loop must call resolve_name(scope, ident, recurse)")
-    if not found_false:
-        r.bad(b.path, "recurse reset", relfile(b.file), b.line, "`recurse` is never set to false: later path segments are searched in enclosing scopes and imports, not only among the members of the item before them")
-    if not found_scope:
-        r.bad(b.path, "scope feedback", relfile(b.file), b.line, "the scope for the next segment is not the scope of the declaration that was just found")
+    defs = mir.Defs(b)
+    calls = [(bi, t) for bi, t in mir.calls(b) if hir.last(mir.callee(t)) == "resolve_name" and len(t["args"]) == 4]
+    if not calls:
+        r.missing("call of resolve_name in resolve_module_part_of_path")
+        return r
+    cbi, ct = calls[0]
+
+    def base(op):
+        """the user variable an argument temp was copied from"""
+        l = op[1][0]
+        for _ in range(6):
+            ds = defs.whole_defs(l)
+            if len(ds) == 1 and ds[0][2] == "assign" and ds[0][3]["rv"]["k"] in ("use", "ref"):
+                rv = ds[0][3]["rv"]
+                src = rv["o"][1] if rv["k"] == "use" and mir.is_place_op(rv.get("o")) else rv.get("p")
+                if not src or any(x != "*" for x in src[1:]):
+                    break
+                l = src[0]
+            else:
+                break
+        return l
+
+    def sources(l):
+        """(block, description) of every assignment to variable l; parameters count as assigned at entry"""
+        out = []
+        if 1 <= l <= b.mir["argc"]:
+            out.append((-1, "arg%d" % l))
+        for d in defs.whole_defs(l):
+            if d[2] == "assign":
+                rv = d[3]["rv"]
+                if rv["k"] == "use":
+                    c = mir.op_const(rv["o"])
+                    out.append((d[0], ("const:%s" % {1: "True", 0: "False", True: "True", False: "False"}.get(c.get("v"), c.get("v"))) if c is not None else mir.origin_key(b, defs, rv["o"][1])))
+                else:
+                    out.append((d[0], rv["k"]))
+            else:
+                a0 = d[3]["args"][0] if d[3]["args"] else None
+                via = [hir.last(c[2]) for c in mir.value_chain(b, defs, a0[1][0])] if mir.is_place_op(a0) else []
+                out.append((d[0], "call:" + mir.callee(d[3]) + ("<-" + ",".join(via[:3]) if via else "")))
+        return out
+    after = mir.reachable_from(b, cbi)
+    again = {x for x in after if cbi in mir.reachable_from(b, x)} | {cbi}
+    s_scope, s_ident, s_rec = (base(a) if mir.is_place_op(a) else None for a in ct["args"][1:4])
+    src_scope = sources(s_scope) if s_scope is not None else []
+    src_ident = sources(s_ident) if s_ident is not None else []
+    src_rec = sources(s_rec) if s_rec is not None else []
+    starts_at_param = any(d.startswith("arg") and "ScopeRef" in b.mir["locals"][int(d[3:].split(".")[0])]["ty"] for _, d in src_scope if d.startswith("arg") and d[3:].split(".")[0].isdigit())
+    fed_back = any(bb in again and "resolve_name" in d and ".scope" in d for bb, d in src_scope)
+    other_scope = [d for bb, d in src_scope if bb in again and not ("resolve_name" in d and ".scope" in d)]
+    rec_true = any(d == "const:True" and bb not in again for bb, d in src_rec)
+    rec_false = any(d == "const:False" and bb in again for bb, d in src_rec)
+    rec_other = [d for bb, d in src_rec if d not in ("const:True", "const:False")] + [d for bb, d in src_rec if d == "const:True" and bb in again]
+    ident_iter = bool(src_ident) and all("next" in d for _, d in src_ident)
+    r.inst("recurse starts true", {"ok": rec_true, "assignments": [d for _, d in src_rec]})
+    if not rec_true or rec_other:
+        r.bad(b.path, "recurse init", relfile(b.file), b.line, "the first path segment must be looked up through the enclosing scopes: the flag passed to resolve_name must start as `true` (assignments: %s)" % [d for _, d in src_rec])
+    r.inst("loop", {"scope_starts_at_parameter": starts_at_param, "scope fed back from found declaration": fed_back, "other scope assignments in the loop": other_scope,
+                    "recurse=false before back edge": rec_false, "identifier from the path iterator": ident_iter})
+    if not starts_at_param or not ident_iter:
+        r.bad(b.path, "call", relfile(b.file), b.line, "the loop must call resolve_name(scope, ident, recurse) with the scope variable starting at the scope parameter and the identifier taken from the path iterator")
+    if not rec_false:
+        r.bad(b.path, "recurse reset", relfile(b.file), b.line, "the flag is never set to false before the next lookup: later path segments are searched in enclosing scopes and imports, not only among the members of the item before them")
+    if not fed_back or other_scope:
+        r.bad(b.path, "scope feedback", relfile(b.file), b.line, "the scope for the next segment is not (only) the scope of the declaration that was just found (assignments in the loop: %s)" % [d for bb, d in src_scope if bb in again])
     return r
 
 
